@@ -9,3 +9,7 @@ import QV.Model.Layout
 import QV.Spec.Layout
 import QV.Proofs.Layout
 import QV.Props.C12
+import QV.Model.Names
+import QV.Spec.Names
+import QV.Proofs.Names
+import QV.Props.C10
